@@ -1,3 +1,5 @@
 //! Materialisers: token lists / logical documents -> real bytes.
 pub mod zipw;
 pub mod xlsx;
+pub mod cfb;
+pub mod biff;
